@@ -6,6 +6,7 @@ a concrete difference)."""
 from __future__ import annotations
 
 import ast
+from collections import Counter
 
 from harness.core import REPO
 
@@ -128,3 +129,196 @@ end SV.Generated.C13
 
 if __name__ == "__main__":
     print(render())
+
+
+# ---------------------------------------------------------------------------------------------------------------
+# state shared by worker threads: lazily initialised members of the schema object, accesses to its single resolver
+# ---------------------------------------------------------------------------------------------------------------
+
+SHARED_FILES = ["specs/openapi/schemas.py", "schemas.py"]
+RESOLVER_ATTRS = {"resolve", "resolving", "resolve_all", "push_scope", "pop_scope", "resolve_in_scope", "in_scope",
+                  "_scopes_stack", "resolution_scope", "base_uri"}
+SCOPE_HELPERS = {"in_scope", "in_scopes"}
+
+
+def _parents(tree):
+    parents = {}
+    for node in ast.walk(tree):
+        for ch in ast.iter_child_nodes(node):
+            parents[ch] = node
+    return parents
+
+
+def _enclosing(node, parents, kinds):
+    while node in parents:
+        node = parents[node]
+        if isinstance(node, kinds):
+            return node
+    return None
+
+
+def _lock_of(node, parents):
+    """the innermost enclosing `with <expr>:` whose expression names a lock (textually contains 'lock')"""
+    cur = node
+    while cur in parents:
+        cur = parents[cur]
+        if isinstance(cur, (ast.FunctionDef, ast.AsyncFunctionDef, ast.Lambda)):
+            # a nested function / lambda runs when it is called, not where it is written
+            if isinstance(cur, ast.Lambda):
+                continue
+            return ""
+        if isinstance(cur, ast.With):
+            for item in cur.items:
+                txt = ast.unparse(item.context_expr)
+                if "lock" in txt.lower():
+                    return txt
+    return ""
+
+
+def _lazy_test(test):
+    """`not hasattr(self, "_x")` / `self._x is None` -> "_x" """
+    if isinstance(test, ast.UnaryOp) and isinstance(test.op, ast.Not) and isinstance(test.operand, ast.Call):
+        c = test.operand
+        if callee_name(c) == "hasattr" and len(c.args) == 2 and isinstance(c.args[1], ast.Constant) \
+                and ast.unparse(c.args[0]) == "self":
+            return c.args[1].value
+    if isinstance(test, ast.Compare) and len(test.ops) == 1 and isinstance(test.ops[0], ast.Is) \
+            and isinstance(test.comparators[0], ast.Constant) and test.comparators[0].value is None \
+            and isinstance(test.left, ast.Attribute) and ast.unparse(test.left.value) == "self":
+        return test.left.attr
+    return None
+
+
+def _mentions(node, names, member):
+    for n in ast.walk(node):
+        if isinstance(n, ast.Name) and n.id in names:
+            return True
+        if isinstance(n, ast.Attribute) and n.attr == member and ast.unparse(n.value) == "self":
+            return True
+    return False
+
+
+def _publish_after_build(if_node, member):
+    """In the body of the `if`, is the assignment `self.<member> = v` the last statement that touches the object?
+    Aliases of `v` (names assigned from expressions that mention it) count as the object."""
+    body = if_node.body
+    idx, value = None, None
+    for i, st in enumerate(body):
+        for n in ast.walk(st):
+            if isinstance(n, ast.Assign) and any(isinstance(t, ast.Attribute) and t.attr == member and
+                                                 ast.unparse(t.value) == "self" for t in n.targets):
+                if idx is None:
+                    idx, value = i, n.value
+    if idx is None:
+        return None
+    names = {n.id for n in ast.walk(value) if isinstance(n, ast.Name)} - {"self"} if isinstance(value, ast.Name) else set()
+    changed = True
+    while changed and names:
+        changed = False
+        for n in ast.walk(if_node):
+            if isinstance(n, ast.Assign) and any(isinstance(x, ast.Name) and x.id in names for x in ast.walk(n.value)):
+                for t in n.targets:
+                    if isinstance(t, ast.Name) and t.id not in names:
+                        names.add(t.id)
+                        changed = True
+    # the assignment statement itself may sit inside a compound statement: what follows it there counts as well
+    top = body[idx]
+    if not isinstance(top, ast.Assign):
+        return False
+    return not any(_mentions(st, names, member) for st in body[idx + 1:])
+
+
+def shared_tables():
+    lazy, sites = [], []
+    for rel in SHARED_FILES:
+        p = SRC / rel
+        if not p.exists():
+            continue
+        tree = ast.parse(p.read_text())
+        parents = _parents(tree)
+        for n in ast.walk(tree):
+            if isinstance(n, ast.If):
+                member = _lazy_test(n.test)
+                fn = _enclosing(n, parents, (ast.FunctionDef, ast.AsyncFunctionDef))
+                cls = _enclosing(n, parents, (ast.ClassDef,))
+                if member and fn is not None and cls is not None:
+                    pab = _publish_after_build(n, member)
+                    if pab is None:
+                        continue
+                    lazy.append((rel, f"{cls.name}.{fn.name}", member, "hasattr-guard", bool(pab), _lock_of(n, parents)))
+            if isinstance(n, (ast.FunctionDef, ast.AsyncFunctionDef)):
+                cls = parents.get(n)
+                decos = {ast.unparse(d).split("(")[0].split(".")[-1] for d in n.decorator_list}
+                if isinstance(cls, ast.ClassDef) and "cached_property" in decos:
+                    # functools.cached_property stores the value after the function has returned it
+                    lazy.append((rel, f"{cls.name}.{n.name}", n.name, "cached_property", True, ""))
+        if rel != "specs/openapi/schemas.py":
+            continue
+        for n in ast.walk(tree):
+            fn = _enclosing(n, parents, (ast.FunctionDef, ast.AsyncFunctionDef))
+            if fn is None:
+                continue
+            what = None
+            if isinstance(n, ast.Attribute) and n.attr in RESOLVER_ATTRS:
+                base = ast.unparse(n.value)
+                if base in ("self.resolver", "resolver", "self._resolver"):
+                    what = n.attr
+            elif isinstance(n, ast.Call) and isinstance(n.func, ast.Name) and n.func.id in SCOPE_HELPERS and n.args \
+                    and ast.unparse(n.args[0]) in ("self.resolver", "resolver", "self._resolver"):
+                what = n.func.id
+            if what is None:
+                continue
+            # the function that runs the access: a lambda / local function belongs to the method that defines it
+            outer = fn
+            while _enclosing(outer, parents, (ast.FunctionDef, ast.AsyncFunctionDef)) is not None:
+                outer = _enclosing(outer, parents, (ast.FunctionDef, ast.AsyncFunctionDef))
+            sites.append((outer.name, what, _lock_of(n, parents)))
+    return lazy, sites
+
+
+INLINING_FUNCTIONS = ("_rewrite_references",)
+
+
+def shared_flags(sites):
+    inl = [s for s in sites if s[0] in INLINING_FUNCTIONS]
+    locks = Counter(s[2] for s in inl if s[2])
+    lock = locks.most_common(1)[0][0] if locks else ""
+    key_reads = [s for s in inl if s[1] == "_scopes_stack"]
+    others = [s for s in sites if s[0] not in INLINING_FUNCTIONS]
+    return lock, bool(key_reads) and all(s[2] == lock and lock for s in key_reads), \
+        bool(others) and all(s[2] == lock and lock for s in others)
+
+
+def render_shared():
+    lazy, sites = shared_tables()
+    lock, key_locked, iter_locked = shared_flags(sites)
+    q = lambda s: '"' + s.replace('"', "'") + '"'
+    b = lambda v: "true" if v else "false"
+    rows1 = ",\n".join(f"  ({q(f)}, {q(w)}, {q(m)}, {q(k)}, {b(p)}, {q(l)})" for f, w, m, k, p, l in lazy)
+    rows2 = ",\n".join(f"  ({q(f)}, {q(w)}, {q(l)})" for f, w, l in sites)
+    return f"""/- GENERATED from /repo by harness/gen_c13_tables.py on every run — do not edit. -/
+namespace SV.Generated.C13Shared
+
+/-- lazily initialised members of the schema object, shared by the worker threads:
+    (file, class.method, member, kind, the assignment to `self.<member>` is the last statement of the guarded block that
+    touches the object, lock held around the guarded block) -/
+def lazyMembers : List (String × String × String × String × Bool × String) := [
+{rows1}
+]
+
+/-- accesses to the schema's single resolver (its scope stack) in specs/openapi/schemas.py: (method, what, lock held) -/
+def resolverSites : List (String × String × String) := [
+{rows2}
+]
+
+/-- the lock under which `_rewrite_references` resolves references -/
+def inliningLock : String := {q(lock)}
+
+/-- the cache key is computed from `resolver._scopes_stack` while that lock is held -/
+def keyReadUnderLock : Bool := {b(key_locked)}
+
+/-- the other users of the resolver (iteration over operations, …) take that lock too -/
+def otherSitesUnderLock : Bool := {b(iter_locked)}
+
+end SV.Generated.C13Shared
+"""
